@@ -128,6 +128,23 @@ def _cls(mod, name):
     return c
 
 
+def _flag(acc, name):
+    """acceptance flag(s) returned by step() / single_update as a float vector; a kernel that reports no usable flag cannot
+    be bound (machinery error, not a violation: the return convention is not part of the property)"""
+    try:
+        a = np.array(acc, dtype=float).reshape(-1)
+    except (TypeError, ValueError):
+        raise MachineryError("%s returned an acceptance flag that is not numeric: %r" % (name, acc))
+    if a.size == 0 or np.any(np.isnan(a)):
+        raise MachineryError("%s returned no acceptance flag (%r)" % (name, acc))
+    return a
+
+
+# scripted draws a kernel did not consume although the transition conformed in every compared respect (e.g. no uniform
+# drawn for a proposal that is rejected whatever the uniform): neither required nor forbidden -> observation
+UNUSED_DRAWS = {"transitions": 0, "example": None}
+
+
 class ExpDriver:
     """cuqi.experimental.mcmc: step() / warmup(1) / get_state / set_state."""
 
@@ -159,11 +176,25 @@ class ExpDriver:
     def transition(self, normals, uniforms, warm):
         with scripted({"normal": list(normals), "uniform": list(uniforms)}) as st:
             if warm:
-                self.s.warmup(1, tune_freq=1.0)         # step . tune(1, 0) . append
-                acc = self.s.get_history()["history"]["_acc"][-1]
+                # warmup(1) = step . tune(1, 0) . append; the value step() returns is captured by an instance-level
+                # wrapper (no dependence on the private history key `_acc`)
+                seen, orig = [], self.s.step
+
+                def step(*a, **k):
+                    r = orig(*a, **k)
+                    seen.append(r)
+                    return r
+                self.s.step = step
+                try:
+                    self.s.warmup(1, tune_freq=1.0)
+                finally:
+                    del self.s.step
+                if len(seen) != 1:
+                    raise MachineryError("warmup(1) of %s made %d calls of step()" % (self.cls.__name__, len(seen)))
+                acc = seen[0]
             else:
                 acc = self.s.step()
-        return np.array(acc, dtype=float).reshape(-1), st.remaining()
+        return _flag(acc, self.cls.__name__), st.remaining()
 
     def set_scale(self, sv):
         self.s.scale = scale_value(self.cfg, sv)
@@ -228,7 +259,7 @@ class LegDriver:
                 self.st[q] = float(new[q])
         if "cgrad" in new:
             self.st["cgrad"] = np.array(new["cgrad"], dtype=float).reshape(-1).copy()
-        return np.array(acc, dtype=float).reshape(-1), st.remaining()
+        return _flag(acc, self.cls.__name__), st.remaining()
 
     def set_scale(self, sv):
         # warm-up of the stateless interface: a real adaptive run (changes only self.scale), then a lattice scale again
@@ -397,8 +428,8 @@ def run_behaviour(ctx, beh, rows, sv0, root, real="user", sigprefix="replay", sa
         except Exception as ex:
             ctx.mismatch(base + "/step/error", dict(case, pos=pos), "transition raised %s: %s" % (type(ex).__name__, str(ex)[:200]))
             return done
-        if left:
-            raise MachineryError("the kernel %s left scripted draws unused: %r" % (drv.cls.__name__, left))
+        # scripted draws left unused: judged AFTER the comparisons below - a kernel that does not draw its uniform and
+        # decides wrongly must be reported as a violation of the property, not as a machinery error
         done += 1
         last_d = pairs[-1][1]
         exp = expect_state(last_d, None if (warm and cfg["iface"] == "exp") else cur_sv)
@@ -442,4 +473,9 @@ def run_behaviour(ctx, beh, rows, sv0, root, real="user", sigprefix="replay", sa
         clause = "reject_state" if rejected_all else "accept_state"
         if not compare(exp, clause, "after a %s transition" % ("rejected" if rejected_all else "(partly) accepted"), pos):
             return done
+        if left and not flip:
+            UNUSED_DRAWS["transitions"] += 1
+            if UNUSED_DRAWS["example"] is None:
+                UNUSED_DRAWS["example"] = {"sampler": drv.cls.__module__ + "." + drv.cls.__name__, "unused": left,
+                                           "classes": [d["cls"] for _, d in pairs]}
     return done
